@@ -60,6 +60,7 @@ def _keep_identity(new, old):
 
 
 def exec_block(self, stmts, st, frame):
+    pair = None
     for i, s in enumerate(stmts):
         if st is None:
             return None
@@ -73,7 +74,30 @@ def exec_block(self, stmts, st, frame):
                 if arr.cover is not None and arr.shape is not None and len(arr.shape) == 1 and arr.shape[0] is not None:
                     from . import cover as CV
                     st.env[name].cover = CV.whole(arr.shape[0], 'zero')     # every piece is rewritten by the statements that follow
+                pair = (name, i + 1, [])
+        self.last_rhs = None
         st = self.exec_stmt(s, st, frame)
+        if pair is not None and st is not None and i <= pair[1]:
+            pair[2].append(getattr(self, 'last_rhs', None))
+            if i == pair[1]:
+                # the buffer now is the concatenation of the two stored vectors: so is its index map
+                va, vb = pair[2] if len(pair[2]) == 2 else (None, None)
+                cur = st.env.get(pair[0])
+                if isinstance(cur, Num) and isinstance(va, Num) and isinstance(vb, Num) and va.seg is not None and vb.seg is not None \
+                        and va.shape is not None and vb.shape is not None and len(va.shape) == 1 and len(vb.shape) == 1 \
+                        and va.segax == 0 and vb.segax == 0:
+                    from . import segmap
+                    try:
+                        sg = segmap.concat([list(va.seg), list(vb.seg)])
+                    except Exception:
+                        sg = None
+                    if sg is not None and cur.shape is not None and len(cur.shape) == 1 and segmap.length(sg) == cur.shape[0]:
+                        nw = cur.copy(seg=sg, segax=0)
+                        _keep_identity(nw, cur)
+                        nw.cover, nw.uninit, nw.c64 = cur.cover, cur.uninit, cur.c64
+                        nw.mirror = va.mirror and vb.mirror
+                        st.env[pair[0]] = nw
+                pair = None
     return st
 
 
@@ -93,6 +117,7 @@ def _exec(self, s, st, frame):
         return st
     if isinstance(s, ast.Assign):
         v = self.eval(s.value, st)
+        self.last_rhs = v
         for t in s.targets:
             self.bind(t, v, st, s)
         return st
@@ -631,18 +656,36 @@ def s_If(self, s, st, frame):
             elif hi_r is not None and v_r == hi_r - 1:
                 tight = (sym_r, (lo_r, hi_r), (lo_r, hi_r - 1))
 
-    def arm(block, state, general):
-        if tight is not None and general:
-            Aff.BOUNDS[tight[0]] = tight[2]
-            try:
-                return self.exec_block(block, state, frame)
-            finally:
-                Aff.BOUNDS[tight[0]] = tight[1]
-        return self.exec_block(block, state, frame)
+    # path facts: inside the arms of `if e1 <op> e2` on affine integers the comparison (or its negation) is known
+    facts_t, facts_f = [], []
+    if isinstance(s.test, ast.Compare) and len(s.test.ops) == 1 and id(s.test) in self.cmp_affs:
+        op_, l_, r_ = self.cmp_affs[id(s.test)][0]
+        if isinstance(op_, ast.GtE):
+            facts_t, facts_f = [l_ - r_], [r_ - l_ - 1]
+        elif isinstance(op_, ast.Gt):
+            facts_t, facts_f = [l_ - r_ - 1], [r_ - l_]
+        elif isinstance(op_, ast.LtE):
+            facts_t, facts_f = [r_ - l_], [l_ - r_ - 1]
+        elif isinstance(op_, ast.Lt):
+            facts_t, facts_f = [r_ - l_ - 1], [l_ - r_]
+
+    def arm(block, state, general, facts=()):
+        Aff.FACTS.extend(facts)
+        try:
+            if tight is not None and general:
+                Aff.BOUNDS[tight[0]] = tight[2]
+                try:
+                    return self.exec_block(block, state, frame)
+                finally:
+                    Aff.BOUNDS[tight[0]] = tight[1]
+            return self.exec_block(block, state, frame)
+        finally:
+            if facts:
+                del Aff.FACTS[-len(facts):]
     try:
         frame.last_end = None
         frame.last_break_hit = False
-        a = arm(s.body, sta, refine is not None and not refine[1])
+        a = arm(s.body, sta, refine is not None and not refine[1], facts_t)
         if a is None and frame.last_end in ('break', 'return') and frame.loops:
             # leaving a loop early under a test that could not be decided: which data the decision depends on
             self.events.append(('guard-break', s, frame.last_end, taint_of(c) | self.pc, self.cur.qname if self.cur else ''))
@@ -651,7 +694,7 @@ def s_If(self, s, st, frame):
         if a is None and frame.last_end == 'raise':
             raised = True
         frame.last_end = None
-        b = arm(s.orelse, stb, refine is not None and refine[1])
+        b = arm(s.orelse, stb, refine is not None and refine[1], facts_f)
         if b is None and frame.last_end in ('break', 'return') and frame.loops:
             self.events.append(('guard-break', s, frame.last_end, taint_of(c) | self.pc, self.cur.qname if self.cur else ''))
         if b is None and frame.last_end in ('break', 'continue', 'return'):
